@@ -60,13 +60,15 @@ def get_const_value(value: ir.Value) -> ir.TensorProtocol | None:
 def get_numpy_value(val: ir.Value | None) -> np.ndarray | None:
     """Convenience wrapper to get (optional) numpy value from an optional IR Value.
 
-    This is intended for use in optimizations/rewriting. Note that this does not
-    yet handle the distinction between inputs with default values (values that are
-    both graph inputs and graph initializers), which should not be treated as a
-    constant, and true constant values. The caller should make the distinction, as
-    a value does not contain enough information to determine this. (TODO)
+    This is intended for use in optimizations/rewriting. Inputs with default values
+    (values that are both graph inputs and graph initializers) can be overridden by
+    the caller and are not treated as constants.
     """
     if val is None:
+        return None
+    if val.is_graph_input():
+        # An input with a default value (an initializer that is also a graph input)
+        # can be overridden by the caller: it is not a constant.
         return None
     const_value = get_const_value(val)
     if const_value is not None:
